@@ -11,6 +11,7 @@ import (
 	"sort"
 	"strings"
 
+	"verifharness/specdec"
 	"verifharness/wl"
 )
 
@@ -176,4 +177,158 @@ func ReadExpectation(path string) (*Expectation, error) {
 		return nil, err
 	}
 	return &e, nil
+}
+
+// ---- rendering of decoded records in the expectations' JSON form (toSerializableMcapRecord.ts)
+
+type field struct {
+	name string
+	val  any
+}
+
+func RenderRecord(r *specdec.Record) (map[string]any, bool) {
+	u := func(v uint64) string { return fmt.Sprint(v) }
+	bytesArr := func(b []byte) []any {
+		out := make([]any, len(b))
+		for i, x := range b {
+			out[i] = fmt.Sprint(x)
+		}
+		return out
+	}
+	strMap := func(kvs []specdec.KV) map[string]any {
+		m := map[string]any{}
+		for _, kv := range kvs {
+			m[kv.K] = kv.V
+		}
+		return m
+	}
+	numMap := func(kvs []specdec.U16U64) map[string]any {
+		m := map[string]any{}
+		for _, kv := range kvs {
+			m[fmt.Sprint(kv.K)] = fmt.Sprint(kv.V)
+		}
+		return m
+	}
+	var typ string
+	var fs []field
+	switch r.Op {
+	case specdec.OpHeader:
+		typ, fs = "Header", []field{{"library", r.Library}, {"profile", r.Profile}}
+	case specdec.OpFooter:
+		typ, fs = "Footer", []field{{"summary_crc", u(uint64(r.SummaryCRC))}, {"summary_offset_start", u(r.SummaryOffsetStart)}, {"summary_start", u(r.SummaryStart)}}
+	case specdec.OpSchema:
+		typ, fs = "Schema", []field{{"data", bytesArr(r.Data)}, {"encoding", r.Encoding}, {"id", u(uint64(r.ID))}, {"name", r.Name}}
+	case specdec.OpChannel:
+		typ, fs = "Channel", []field{{"id", u(uint64(r.ID))}, {"message_encoding", r.MessageEncoding}, {"metadata", strMap(r.Meta)}, {"schema_id", u(uint64(r.SchemaID))}, {"topic", r.Topic}}
+	case specdec.OpMessage:
+		typ, fs = "Message", []field{{"channel_id", u(uint64(r.ChannelID))}, {"data", bytesArr(r.Data)}, {"log_time", u(r.LogTime)}, {"publish_time", u(r.PublishTime)}, {"sequence", u(uint64(r.Sequence))}}
+	case specdec.OpChunkIndex:
+		typ, fs = "ChunkIndex", []field{{"chunk_length", u(r.ChunkLength)}, {"chunk_start_offset", u(r.ChunkStartOffset)}, {"compressed_size", u(r.CompressedSize)}, {"compression", r.Compression},
+			{"message_end_time", u(r.MessageEndTime)}, {"message_index_length", u(r.MessageIndexLength)}, {"message_index_offsets", numMap(r.MessageIndexOffsets)}, {"message_start_time", u(r.MessageStartTime)}, {"uncompressed_size", u(r.UncompressedSize)}}
+	case specdec.OpAttachment:
+		typ, fs = "Attachment", []field{{"create_time", u(r.CreateTime)}, {"data", bytesArr(r.Data)}, {"log_time", u(r.LogTime)}, {"media_type", r.MediaType}, {"name", r.Name}}
+	case specdec.OpAttachmentIndex:
+		typ, fs = "AttachmentIndex", []field{{"create_time", u(r.CreateTime)}, {"data_size", u(r.DataSize)}, {"length", u(r.AttLength)}, {"log_time", u(r.LogTime)}, {"media_type", r.MediaType}, {"name", r.Name}, {"offset", u(r.AttOffset)}}
+	case specdec.OpStatistics:
+		typ, fs = "Statistics", []field{{"attachment_count", u(uint64(r.AttachmentCount))}, {"channel_count", u(uint64(r.ChannelCount))}, {"channel_message_counts", numMap(r.ChannelMessageCounts)}, {"chunk_count", u(uint64(r.ChunkCount))},
+			{"message_count", u(r.MessageCount)}, {"message_end_time", u(r.MessageEndTime)}, {"message_start_time", u(r.MessageStartTime)}, {"metadata_count", u(uint64(r.MetadataCount))}, {"schema_count", u(uint64(r.SchemaCount))}}
+	case specdec.OpMetadata:
+		typ, fs = "Metadata", []field{{"metadata", strMap(r.Meta)}, {"name", r.Name}}
+	case specdec.OpMetadataIndex:
+		typ, fs = "MetadataIndex", []field{{"length", u(r.AttLength)}, {"name", r.Name}, {"offset", u(r.AttOffset)}}
+	case specdec.OpSummaryOffset:
+		typ, fs = "SummaryOffset", []field{{"group_length", u(r.GroupLength)}, {"group_opcode", u(uint64(r.GroupOpcode))}, {"group_start", u(r.GroupStart)}}
+	case specdec.OpDataEnd:
+		typ, fs = "DataEnd", []field{{"data_section_crc", u(uint64(r.DataSectionCRC))}}
+	default:
+		return nil, false // chunks are de-chunked, message indexes are not listed, unknown records are skipped
+	}
+	var fl []any
+	for _, f := range fs {
+		fl = append(fl, []any{f.name, f.val})
+	}
+	return map[string]any{"type": typ, "fields": fl}, true
+}
+
+// RenderFile renders the streamed record list of a decoded file.
+func RenderFile(f *specdec.File) []any {
+	out := []any{}
+	for _, r := range f.Flat(true) {
+		if m, ok := RenderRecord(r); ok {
+			out = append(out, m)
+		}
+	}
+	return out
+}
+
+// Normalize round-trips a value through JSON so that two renderings can be compared structurally.
+func Normalize(v any) any {
+	b, _ := json.Marshal(v)
+	var out any
+	_ = json.Unmarshal(b, &out)
+	return out
+}
+
+// ExpectedRecords returns the expectation's record list in normalized form.
+func (e *Expectation) ExpectedRecords() any {
+	return Normalize(e.Records)
+}
+
+func (r ExpRecord) MarshalJSON() ([]byte, error) {
+	return json.Marshal(map[string]any{"type": r.Type, "fields": r.Fields})
+}
+
+func fieldOf(rec map[string]any, name string) (string, bool) {
+	fl, _ := rec["fields"].([]any)
+	for _, f := range fl {
+		p, _ := f.([]any)
+		if len(p) == 2 && p[0] == name {
+			s, ok := p[1].(string)
+			return s, ok
+		}
+	}
+	return "", false
+}
+
+// IndexedExpectation ports IndexedReadTestRunner.expectedResult.
+func IndexedExpectation(records any) map[string]any {
+	res := map[string][]any{"schemas": {}, "channels": {}, "messages": {}, "statistics": {}}
+	seenS, seenC := map[string]bool{}, map[string]bool{}
+	list, _ := records.([]any)
+	for _, x := range list {
+		rec, _ := x.(map[string]any)
+		switch rec["type"] {
+		case "Schema":
+			id, _ := fieldOf(rec, "id")
+			if !seenS[id] {
+				seenS[id] = true
+				res["schemas"] = append(res["schemas"], rec)
+			}
+		case "Channel":
+			id, _ := fieldOf(rec, "id")
+			if !seenC[id] {
+				seenC[id] = true
+				res["channels"] = append(res["channels"], rec)
+			}
+		case "Message":
+			res["messages"] = append(res["messages"], rec)
+		case "Statistics":
+			res["statistics"] = append(res["statistics"], rec)
+		}
+	}
+	num := func(rec any, name string) uint64 {
+		s, _ := fieldOf(rec.(map[string]any), name)
+		var v uint64
+		fmt.Sscan(s, &v)
+		return v
+	}
+	sort.SliceStable(res["messages"], func(i, j int) bool { return num(res["messages"][i], "log_time") < num(res["messages"][j], "log_time") })
+	sort.SliceStable(res["schemas"], func(i, j int) bool { return num(res["schemas"][i], "id") < num(res["schemas"][j], "id") })
+	sort.SliceStable(res["channels"], func(i, j int) bool { return num(res["channels"][i], "id") < num(res["channels"][j], "id") })
+	return map[string]any{"schemas": res["schemas"], "channels": res["channels"], "messages": res["messages"], "statistics": res["statistics"]}
+}
+
+// IndexedSupported ports GoIndexedReaderTestRunner.supportsVariant.
+func IndexedSupported(w *wl.Workload, f map[string]bool) bool {
+	return has(w, "message") && f["ch"] && f["chx"] && f["rch"] && f["rsh"] && f["mx"]
 }
